@@ -22,5 +22,16 @@ CHECKS = {
                  "of a ValueError or TypeError subclass (class hierarchy resolved in error.py, unbound names on the raise path included); "
                  "no rejecting path contains a write, queue/window insertion, timer or state change. Decides the guards, not run-time values.",
          "note": BASE_NOTE + " Strict bounds are normalised assuming integer arguments.", "technique": "path-sensitive guard/interval extraction + effect-before-reject ordering check"},
+ "C05": {"text": "Who-may-fire, pairing and identity rules on every abstract path of the publisher-capable classes: success-fire of a publish "
+                 "Deferred only in the PUBACK/PUBCOMP handlers on the looked-up entry (and at creation for QoS 0); PUBREC transfers, never "
+                 "fires; lookups by the received identifier inside try/except KeyError with an effect-free miss branch; fired entries leave "
+                 "their registry on the same path (at most once); removed entries are fired, transferred or re-registered (at least once); "
+                 "the wire identifier comes from the allocator, equals deferred.msgId, the registry key and the callback argument.",
+         "note": BASE_NOTE, "technique": "path-sensitive who-may-fire / pairing (typestate of Deferred and registry entry) + def-use identity"},
+ "C06": {"text": "Path counting on the PUBLISH and PUBREL handlers of the subscriber-capable classes: replies and deliveries per QoS branch "
+                 "on every path, exactly one PUBCOMP on every PUBREL path (hit or miss), delivery only after removal on the hit path, reply "
+                 "identifier = received identifier (def-use), delivery argument order as documented, PUBACK/PUBREC/PUBCOMP emitted only in "
+                 "these network contexts, receive window touched only by PUBLISH (insert) and PUBREL (remove).",
+         "note": BASE_NOTE, "technique": "all-paths event counting per branch + who-may-emit table + def-use identity"},
 }
 NOT_APPLICABLE = {}
